@@ -42,6 +42,7 @@ def child_env(extra: dict | None = None) -> dict:
     env["PYTHONDONTWRITEBYTECODE"] = "1"
     for v in ("OMP_NUM_THREADS", "OPENBLAS_NUM_THREADS", "MKL_NUM_THREADS", "NUMEXPR_NUM_THREADS"):
         env.setdefault(v, "1")
+    env["TMPDIR"] = str(scratch("tmp"))          # children's temporary directories disappear with the scratch tree
     if extra:
         env.update({k: str(v) for k, v in extra.items()})
     return env
@@ -69,6 +70,9 @@ def scratch(name: str = "") -> Path:
         _scratch_root = Path(tempfile.mkdtemp(prefix="ffcxverif-", dir=base))
         if not os.environ.get("VERIF_KEEP_SCRATCH"):
             atexit.register(shutil.rmtree, str(_scratch_root), True)
+        # ffcx's JIT (cache_dir=None) and cffi leave mkdtemp() directories behind: keep them inside the scratch tree
+        (_scratch_root / "tmp").mkdir(exist_ok=True)
+        tempfile.tempdir = str(_scratch_root / "tmp")
     if not name:
         return _scratch_root
     d = _scratch_root / name
